@@ -57,7 +57,7 @@ def run(c):
             why.append("own")
         key = "%s:%s" % (e.get("ct"), ",".join(why)[:70])
         seen[key] = seen.get(key, 0) + 1
-        if seen[key] <= 2:
+        if c.want_reproduction(key, seen[key]):
             c.reproduce_trace("p7sign", s["sc"], "Pkcs7SignTrace", "Pkcs7SignTrace.cfg", ("sc", "ev"), env=env, select=lambda x: x.get("op") == "sign", head=({"op": "reset"},))
         c.report(key, "SignedData produced for %s is not what an RFC 2315 producer emits / not accepted by independent implementations: %s" % (
             {k: s[k] for k in ("ct", "size", "key", "issuer", "serial")}, why), dict({"scenario": s, "event": e}, **c.rp("p7sign", s, validate=("Pkcs7SignTrace", "Pkcs7SignTrace.cfg"), strip=("sc", "ev"))))
